@@ -134,7 +134,8 @@ P("C08", level_text="Theorem: for every raw-free document within the 64-bit/32-b
   "doubles only when lossless), with the shortest headers on both sides of every boundary. bin/ext values built through the API are modelled and compared; destinations, counts and "
   "bounded buffers are checked in the harness; an independent Python decoder judges the implementation's bytes.",
   level_note="raw values are excluded from the theorem (they are copied verbatim); lengths >= 2^32 are outside the format",
-  suites=lambda tier: [S.MpSerSuite(cfg=DEF), S.SerBufSweep(cfg=DEF, fmt="mp", n=40 if tier == "quick" else 1500)])
+  suites=lambda tier: [S.MpSerSuite(cfg=DEF), S.SerBufSweep(cfg=DEF, fmt="mp", n=40 if tier == "quick" else 1500)] +
+  ([S.MpSerSuite(cfg=G["len4"], n=2000)] if tier == "thorough" else []))
 
 P("C09", level_text="Theorems: every serialized document is accepted and decoded to the value it encodes with exact consumption (any trailing bytes), 0xC1 gives InvalidInput, a non-string "
   "key gives InvalidInput, the empty input gives EmptyInput, proper prefixes of scalars give IncompleteInput. The model agrees with deserializeMsgPack on values encoded by an independent "
